@@ -35,9 +35,17 @@ def c06(res, thorough):
                    "MoirQueue, RWQueue (two-lock queue) and OptimisticQueue (prev links as hints, fix_list): Lean machines over a shared generic ghost-log toolkit (Algo/QueueLin), each proved linearizable to Spec.fifo for all schedules incl. the hindsight point of the empty dequeue, "
                    "no invention / no duplication, and each tied by trace conformance (imoir_hp, rwqueue_named, ioptimistic_named); same heap / CAS assumptions as MSQueue",
                    "FCQueue without elimination: C06_fcqueue_linearizable (generic flat-combining theorem of C10 instantiated with Spec.fifo); with elimination: fixed-batch theorems + differential tie + histories",
-                   "BasketQueue and the container:: wrappers: no algorithm model; decided by histories judged against Spec.fifo (incl. CAS-biased 4-thread runs and the final drain)"],
-             partial=["linearizability of BasketQueue as a theorem: not proved; decided on explored schedules only", "FCQueue elimination under concurrency: fixed-batch theorems only"])
-    lean_step(res, ["CdsVerif.Props.C06", "CdsVerif.Props.C06MSQueue", "CdsVerif.Props.C06Moir", "CdsVerif.Props.C06RWQueue", "CdsVerif.Props.C06Optimistic", "CdsVerif.Props.C10FCLin"], thorough)
+                   "BasketQueue: Lean machine (Algo/Basket: first CAS, the try_again basket loop with the re-stored next pointer, tail fixing, marking dequeue with the hop count, free_chain; m_nMaxHops a parameter) with an inductive invariant "
+                   "(19 clauses, 38 program points) proved for all schedules: Herlihy-Wing linearizable to the UNORDERED pool (C06_basket_pool_linearizable: conservation, no duplication, no invention, 'empty' answered only at an instant where nothing is present: "
+                   "C06_basket_empty_means_empty), every dequeue LP is the fifo transition of the list-order queue and every enqueue LP an insertion into it (C06_basket_lp_refines); tied by trace conformance (hidden variant ibasket_named). "
+                   "FIFO order among OVERLAPPING basket enqueues is not a theorem (the enqueue must be linearized before its own CAS, a future-dependent LP): C06_basket_linearizable_partial states the gap; decided by histories against Spec.fifo "
+                   "(CAS-biased 4-thread runs, final drain)",
+                   "container:: wrappers: same algorithms behind an allocator; decided by histories"],
+             partial=["BasketQueue FIFO order among overlapping enqueues as a theorem: not proved (pool linearizability + per-step refinement proved); decided on explored schedules", "FCQueue elimination under concurrency: fixed-batch theorems only"])
+    lean_step(res, ["CdsVerif.Props.C06", "CdsVerif.Props.C06MSQueue", "CdsVerif.Props.C06Moir", "CdsVerif.Props.C06RWQueue", "CdsVerif.Props.C06Optimistic", "CdsVerif.Props.C06Basket", "CdsVerif.Props.C10FCLin"], thorough)
+    tie_A(res, "queue", "basket", [{"args": ["--mode", "mixed", "--threads", "4", "--ops", "4", "--variant", "ibasket_named"], "cases": 10000 if thorough else 1200},
+                                   {"args": ["--mode", "cas", "--threads", "4", "--ops", "3", "--variant", "ibasket_named"], "cases": 8000 if thorough else 1000},
+                                   {"args": ["--mode", "enum2" if thorough else "enum1", "--threads", "2", "--ops", "3", "--variant", "ibasket_named"], "cases": 10 if thorough else 5}])
     for v, m in (("imoir_hp", "moir"), ("rwqueue_named", "rwqueue"), ("ioptimistic_named", "optimistic")):
         tie_A(res, "queue", m, [{"args": ["--mode", "mixed", "--threads", "4", "--ops", "4", "--variant", v], "cases": 10000 if thorough else 1200},
                                 {"args": ["--mode", "cas", "--threads", "3", "--ops", "4", "--variant", v], "cases": 6000 if thorough else 800},
@@ -308,9 +316,9 @@ def c15(res, thorough):
                  mnv=["SkipListSet (HP): Lean machine of the REPAIRED code (Algo/SkipList: towers, find_position with helping, insert level by level with renew_insert_position, try_remove_at, fast and slow find paths; Cfg.markTest = the mark test added by b95a3c3), "
                       "tied by trace conformance (hidden variant iskipset_hp_named) with a structural predicate evaluated on every replayed state (every level sorted and a sub-list of the level below, a level-0 mark implies all upper marks, quiescence implies no marked node); "
                       "theorems: marked words frozen, level 0 marked only by the successful erase, the fast path answers 'found' only after reading an unmarked level-0 link, and WITHOUT the mark test the machine has a complete run whose history is proved non-linearizable "
-                      "(C15_skiplist_not_linearizable_without_mark_test: the defect fixed by b95a3c3). Linearizability of the repaired machine for all schedules is NOT proved (the inductive invariant over the upper levels was not finished)",
+                      "(C15_skiplist_not_linearizable_without_mark_test: the defect fixed by b95a3c3). For the repaired machine: inductive invariant over all schedules (level 0 a strictly sorted chain from the head, tower words null or published items tall enough, level-0 mark implies all upper marks, head never marked: C15_skiplist_invariant / _structure / _level0), erase marks once (C15_skiplist_mark_once) and linearizability to Spec.map for every run (C15_skiplist_linearizable, ghost log with a helped linearization point for the eraser that loses the race on the level-0 mark); the upper-level clauses (every level a sorted sub-list of the one below) are NOT proved, they are checked on every replayed state and by C18 snapshots",
                       "EllenBinTree, BronsonAVLTreeMap, SkipListMap and the RCU forms: no algorithm model; decided by histories"],
-                 partial=["C15_skiplist_linearizable for all schedules: not proved; the machine is validated against the code by replay, its histories by the verified checker", "EllenBinTree / Bronson machines: none"])
+                 partial=["skip list: upper levels sorted / sub-list of the level below as an invariant for all schedules: not proved (replayed states and C18 snapshots only)", "EllenBinTree / Bronson machines: none; decided by histories"])
     tie_A(res, "tree", "skiplist",
           [{"args": ["--mode", "mixed", "--threads", "4", "--ops", "5", "--variant", "iskipset_hp_named"], "cases": 12000 if thorough else 1500},
            {"args": ["--mode", "random", "--threads", "4", "--ops", "4", "--keys", "2", "--variant", "iskipset_hp_named"], "cases": 8000 if thorough else 1000},
@@ -479,14 +487,14 @@ def c18(res, thorough):
     res.cov["rule"] = ("cases = (client program, schedule) pairs; after each program the main thread dumps the structure; distinct = distinct (variant, atomic-operation sequence hash); "
                        "non-trivial = contains a failed CAS or a back-off; sequential runs (one thread) are included as a separate run")
     lean_step(res, "CdsVerif.Props.C18", thorough)
-    n = 60000 if thorough else 6000
+    n = 30000 if thorough else 6000
     steps.tie_S(res, "snap", [{"args": ["--mode", "mixed", "--threads", "3", "--ops", "5"], "cases": n},
                               {"args": ["--mode", "mixed", "--threads", "4", "--ops", "4"], "cases": n // 2},
                               {"args": ["--mode", "seq", "--threads", "1", "--ops", "14"], "cases": n},
                               {"args": ["--mode", "enum2" if thorough else "enum1", "--threads", "2", "--ops", "3"], "cases": 34 if thorough else 17}])
     # the leftovers that matter are rare (a marked node left linked, a stale height): dense runs on the variants that can have them
     for v in ("michael_hp", "michael_hp_cnt", "split_michael_hp", "bronson_gpi", "bronson_gpi_cnt", "bronson_gpi_relaxed", "skip_hp", "lazy_hp"):
-        steps.tie_S(res, "snap", [{"args": ["--mode", "mixed", "--threads", "3", "--ops", "5", "--variant", v], "cases": 40000 if thorough else 5000}], label="snap-dense")
+        steps.tie_S(res, "snap", [{"args": ["--mode", "mixed", "--threads", "3", "--ops", "5", "--variant", v], "cases": 16000 if thorough else 5000}], label="snap-dense")
 
 
 def c19(res, thorough):
@@ -523,7 +531,7 @@ def c20(res, thorough):
     lean_step(res, "CdsVerif.Props.C20", thorough)
     # sequential cases are cheap (about 2500 per second): many per variant, so that rare shapes are reached
     # (e.g. Bronson's update(key, f, false) on a routing node needs insert x3 / erase of the two-child node / update)
-    n = 200000 if thorough else 24000
+    n = 100000 if thorough else 24000
     for client in ("stack", "queue", "vyukov", "deque", "pqueue", "list", "hashset", "tree", "striped"):
         tie_H(res, client, [{"args": ["--mode", "seq", "--threads", "1", "--ops", "12"], "cases": n}], ignore_oracle=FC_ORACLE)
     res.cov["distinct_nontrivial"] = res.cov.get("distinct_traces", 0)
